@@ -115,8 +115,9 @@ class DefaultEvaluatorStep(PlanStep):
 
         # There are no results if the evaluation was aborted:
         if results:
-            assert isinstance(results[0], FunctionResults)
-            if results[0].functions is None:
+            assert all(isinstance(item, FunctionResults) for item in results)
+            # Each variable vector is an evaluation of its own:
+            if any(item.functions is None for item in results):
                 exit_code = OptimizerExitCode.TOO_FEW_REALIZATIONS
 
         if metadata is not None:
